@@ -501,6 +501,25 @@ func (c *Cluster) CutConn(id int) {
 	c.event()
 }
 
+// MoveBroker models a broker restarting on another address: its connections are closed, it listens on the
+// new host:port, and (when squatter >= 0) a new broker with that id takes over the old address.
+func (c *Cluster) MoveBroker(id int, host string, port int, squatter int) {
+	c.mu.Lock()
+	b := c.BrokerByID(id)
+	oldHost, oldPort := b.Host, b.Port
+	for _, sc := range c.Conns {
+		if sc.broker == b && !sc.closedByBroker {
+			c.dropConn(sc)
+		}
+	}
+	b.Host, b.Port = host, port
+	if squatter >= 0 {
+		c.Brokers = append(c.Brokers, &Broker{ID: squatter, Host: oldHost, Port: oldPort})
+	}
+	c.mu.Unlock()
+	c.event()
+}
+
 // Withheld lists connections with response bytes not yet released to the client.
 func (c *Cluster) Withheld() map[int]int {
 	c.mu.Lock()
